@@ -236,9 +236,295 @@ def _flushed_before_close(h):
     return seen_flush
 
 
+# ---------------------------------------------------------------- split
+SPLIT_TARGETS = {"out.records": "stream", "out.records.gz": "streamgz", "out.json": "json", "out": "stream", "out.avro": "avro"}
+
+
+def suffix_of(fname, target):
+    """numeric suffix the split writer inserted into the target's file name"""
+    stem, ext = os.path.splitext(target)
+    m = re.match(re.escape(stem) + r"\.(\d+)" + re.escape(ext) + r"$", fname)
+    return m.group(1) if m else None
+
+
+def run_split_case(target, kind, sl, limit, N, mode, tmp, desc):
+    from flow.record import RecordReader, RecordWriter
+
+    for f in glob.glob(os.path.join(tmp, "*")):
+        os.remove(f)
+    c = {"target": target, "limit": limit, "sl": sl, "n": N, "mode": mode, "raised": False, "exc": "none", "parts": [], "suffix": [], "all_readable": True,
+         "rawcat_checked": False, "rawcat": [], "indep": [], "zero_byte_parts": []}
+    try:
+        w = RecordWriter(f"split://{os.path.join(tmp, target)}?count={limit}&suffix-length={sl}")
+        for i in range(1, N + 1):
+            w.write(desc(i, "v", _generated=gen.GEN))
+        if mode == "exit":
+            w.__exit__(None, None, None)
+        elif mode == "close":
+            w.close()
+        elif mode == "flushclose":
+            w.flush()
+            w.close()
+        elif mode == "closeclose":
+            w.close()
+            w.close()
+    except Exception as e:
+        c["raised"], c["exc"] = True, type(e).__name__ + ":" + str(e)[:80]
+    names = []
+    for f in os.listdir(tmp):
+        sfx = suffix_of(f, target)
+        names.append((int(sfx) if sfx is not None else 10**6, f, sfx))
+    names.sort()
+    indep_ok = True
+    for idx, (_, f, sfx) in enumerate(names):
+        path = os.path.join(tmp, f)
+        c["suffix"].append(len(sfx) if sfx is not None else 0)
+        try:
+            with open(path, "rb") as fh:
+                if decompress(path, fh.read()) == b"" and kind in ("stream", "streamgz"):
+                    c["zero_byte_parts"].append(idx)  # no stream header at all
+        except Exception:
+            pass
+        try:
+            c["parts"].append(lib_read(path))
+        except Exception as e:
+            c["all_readable"] = False
+            c["parts"].append([])
+            c["exc"] = "part:" + type(e).__name__ + ":" + str(e)[:60]
+        try:
+            c["indep"] += indep_read(kind, path)
+        except Exception:
+            indep_ok = False
+    if not indep_ok:
+        c["indep"] = [-1]
+    if kind in ("stream", "streamgz", "json") and c["all_readable"]:
+        # raw-byte concatenation of the parts, read as ONE file by the library's reader
+        cat = os.path.join(tmp, "cat_" + target + ("" if "." in target else ".records"))
+        with open(cat, "wb") as out:
+            for _, f, _ in names:
+                with open(os.path.join(tmp, f), "rb") as src:
+                    out.write(src.read())
+        c["rawcat_checked"] = True
+        try:
+            c["rawcat"] = lib_read(cat)
+        except Exception as e:
+            c["rawcat"] = [-1]
+            c["exc"] = "rawcat:" + type(e).__name__
+    return c
+
+
+def split_part(ctx, thorough):
+    ctx.design("Split", "MC_Split.cfg", "exhaustive: N <= 9 records x limit 1..4", actions=("Write", "Close"), workers=4)
+    if thorough:
+        ctx.sensitivity("Split", "MC_Split_dev_Gt.cfg", "'>' instead of '>=' must violate PartBound", "PartBound", workers=4)
+    tmp = common.scratch("c17s")
+    desc = D()
+    cases = []
+    limits = (1, 2, 3, 4, 7)
+    Ns = range(0, 12) if not thorough else range(0, 30)
+    modes = ("exit", "close", "flushclose") if not thorough else ("exit", "close", "flushclose", "closeclose")
+    for target, kind in SPLIT_TARGETS.items():
+        for sl in ((1, 2, 3) if thorough or target == "out.records" else (2,)):
+            for limit in limits:
+                for N in Ns:
+                    for mode in modes:
+                        if not thorough and target not in ("out.records",) and (N + limit) % 2:
+                            continue
+                        cases.append(run_split_case(target, kind, sl, limit, N, mode, tmp, desc))
+                        ctx.case(("split", target, sl, limit, N, mode))
+    if thorough:
+        for N, limit in ((200, 50), (201, 50), (199, 50), (1000, 999), (1000, 1000), (1001, 1000)):
+            cases.append(run_split_case("out.records", "stream", 2, limit, N, "exit", tmp, desc))
+            ctx.case(("split", "out.records", 2, limit, N, "exit"))
+    ctx.sample({"part": "split", "case": cases[len(cases) // 2]})
+    path = os.path.join(common.scratch("c17"), "scases.json")
+    tlc.write_json(path, cases)
+    r = ctx.tlc("Trace_Split", "Trace_Split.cfg", f"split cases ({len(cases)})", env={"TRACE_FILE": path})
+    seen, drift = set(), 0
+    for v in r.violations:
+        cid = v["state"].get("cid")
+        if cid is None:
+            raise MachineryError(f"cannot attribute counter-example: {v}")
+        c = cases[cid - 1]
+        if v["inv"] == "Contract":
+            if cid in seen:
+                continue
+            seen.add(cid)
+            nparts = len(c["parts"])
+            others_ok = [x for p in c["parts"] for x in p] == list(range(1, c["n"] + 1)) and all(len(p) <= c["limit"] for p in c["parts"])
+            reason = "other"
+            if c["zero_byte_parts"] == [nparts - 1] and others_ok and not c["raised"] and c["parts"][-1] == []:
+                reason = "last_part_zero_bytes"
+            ctx.violation({"part": "split", "check": "Contract", "mode": c["mode"], "kind": SPLIT_TARGETS[c["target"]], "reason": reason,
+                           "n_mod_limit_is_zero": c["n"] % c["limit"] == 0, **({} if reason == "last_part_zero_bytes" else {"limit": c["limit"], "n": c["n"], "sl": c["sl"], "target": c["target"]})}, {"case": c})
+        else:
+            drift += 1
+    if drift:
+        ctx.note(f"split: model drift on {drift} cases (parts differ from the greedy design; contract evaluated separately)")
+        print(f"MODEL-DRIFT property={PROP} split: {drift} cases")
+    ctx.count(len(cases), len(cases))
+
+
+# ---------------------------------------------------------------- template / rotation
+class FakeClock:
+    """Stands in for the `datetime` module inside flow.record.stream (attribute assignment in this process only)."""
+
+    def __init__(self):
+        self.t = 0
+        real = dt
+        outer = self
+
+        class _DT(real.datetime):
+            @classmethod
+            def now(cls, tz=None):
+                return real.datetime(2030, 1, 1, 0, 0, 0, tzinfo=tz) + real.timedelta(seconds=outer.t)
+
+        self.datetime = _DT
+        self.timezone = real.timezone
+        self.timedelta = real.timedelta
+
+
+def list_files(tmp):
+    out = []
+    for f in sorted(os.listdir(tmp)):
+        m = re.match(r"^([pq])\.(.*)records$", f)
+        if not m:
+            out.append({"b": "?", "rot": True, "ids": [-1]})
+            continue
+        with open(os.path.join(tmp, f), "rb") as fh:
+            data = fh.read()
+        try:
+            ids = [x[2][1] for x in rc.decode_stream(data) if x[0] == "REC"]
+        except Exception:
+            ids = [-1]
+        out.append({"b": m.group(1), "rot": f != m.group(1) + ".records", "ids": ids})
+    return out
+
+
+def run_template_history(pre, ops, tmp, T):
+    import flow.record.stream as S
+    from flow.record import RecordWriter
+
+    for f in glob.glob(os.path.join(tmp, "*")):
+        os.remove(f)
+    for p in pre:
+        with RecordWriter(os.path.join(tmp, p + ".records")) as w:
+            w.write(T(p, 101 if p == "p" else 102, _generated=gen.GEN))
+    clock = FakeClock()
+    saved = S.datetime
+    S.datetime = clock
+    tr = [{"pre": sorted(pre), "files": list_files(tmp)}]
+    try:
+        w = S.PathTemplateWriter(path_template=os.path.join(tmp, "{record.k}.records"))
+        n = 0
+        for op in ops:
+            ev = {"op": op[0], "raised": False, "exc": "none"}
+            try:
+                if op[0] == "write":
+                    n += 1
+                    ev["p"] = op[1]
+                    w.write(T(op[1], n, _generated=gen.GEN))
+                elif op[0] == "tick":
+                    clock.t += 1
+                else:
+                    w.close()
+            except Exception as e:
+                ev["raised"], ev["exc"] = True, type(e).__name__ + ":" + str(e)[:80]
+            ev["files"] = list_files(tmp)
+            tr.append(ev)
+        try:
+            w.close()
+        except Exception:
+            pass
+    finally:
+        S.datetime = saved
+    return tr
+
+
+def template_histories(maxlen):
+    out = []
+
+    def rec(prefix, ticks):
+        if prefix:
+            out.append(list(prefix) + [("close",)])
+        if len(prefix) == maxlen:
+            return
+        for op in (("write", "p"), ("write", "q"), ("tick",)):
+            if op[0] == "tick" and (ticks >= 2 or not prefix or prefix[-1][0] == "tick"):
+                continue
+            rec(prefix + [op], ticks + (op[0] == "tick"))
+
+    rec([], 0)
+    return out
+
+
+def template_part(ctx, thorough):
+    from flow.record import RecordDescriptor
+
+    ctx.design("Template", "MC_Template.cfg", "exhaustive: 2 paths, <=5 writes, clock 0..2, pre-existing files subset of paths", actions=("Write", "Tick", "Close"), workers=8)
+    if thorough:
+        ctx.sensitivity("Template", "MC_Template_dev_Collision.cfg", "rotation name = f(path, clock) must violate NoLoss", "NoLoss", workers=4)
+    T = RecordDescriptor("tpl/r", [("string", "k"), ("varint", "n")])
+    tmp = common.scratch("c17t")
+    hs = template_histories(5 if not thorough else 7)
+    traces, metas = [], []
+    for pre in ([], ["p"], ["q"], ["p", "q"]):
+        for h in hs:
+            if not thorough and len(h) > 5 and (len(pre) + len(h)) % 2:
+                continue
+            traces.append(run_template_history(pre, h, tmp, T))
+            metas.append((pre, h))
+            ctx.case(("template", tuple(pre), tuple(h)))
+    ctx.sample({"part": "template", "pre": metas[7][0], "history": metas[7][1], "trace": traces[7]})
+    path = os.path.join(common.scratch("c17"), "ttraces.json")
+    tlc.write_json(path, traces)
+    r = ctx.tlc("Trace_Template", "Trace_Template_contract.cfg", f"rotation traces, contract mode ({len(traces)} histories)", env={"TRACE_FILE": path})
+    bad = set()
+    for v in r.violations:
+        tid = v["state"].get("tid")
+        if tid is None:
+            raise MachineryError(f"cannot attribute counter-example: {v}")
+        if tid in bad:
+            continue
+        bad.add(tid)
+        pre, h = metas[tid - 1]
+        l = v["state"]["l"]
+        upto = h[: l - 2]
+        # how many times was the same path rotated within one clock value in the prefix?
+        ctx.violation({"part": "template", "check": v["inv"], "same_second_double_rotation": _double_rotation(pre, upto)},
+                      {"pre": pre, "history": [" ".join(o) for o in upto], "files": traces[tid - 1][l - 2].get("files")})
+    rd = ctx.tlc("Trace_Template", "Trace_Template_design.cfg", "rotation traces, design mode", env={"TRACE_FILE": path})
+    drift = {v["state"].get("tid") for v in rd.violations if v["inv"] == "NotStuck"} - bad
+    for t in sorted(drift)[:3]:
+        print(f"MODEL-DRIFT property={PROP} template pre={metas[t-1][0]} history={metas[t-1][1]!r}")
+    if drift:
+        ctx.note(f"template: model drift on {len(drift)} traces")
+    ctx.count(len(traces), sum(len(t) - 1 for t in traces))
+
+
+def _double_rotation(pre, ops):
+    exists = set(pre)
+    cur = None
+    clock = 0
+    rotated = {}
+    for op in ops:
+        if op[0] == "tick":
+            clock += 1
+        elif op[0] == "write":
+            p = op[1]
+            if cur != p:
+                if p in exists:
+                    rotated[(p, clock)] = rotated.get((p, clock), 0) + 1
+                exists.add(p)
+                cur = p
+    return any(v >= 2 for v in rotated.values())
+
+
 def run(tier):
     ctx = check.Ctx(PROP, tier)
     thorough = tier == "thorough"
     writers_part(ctx, thorough)
+    split_part(ctx, thorough)
+    template_part(ctx, thorough)
     ctx.extra["rule"] = "bounded-exhaustive call histories per adapter kind; split: all (target, suffix length, limit, N, closing mode); template: all op sequences over 2 paths with ticks and pre-existing files"
     return ctx.finish()
